@@ -493,3 +493,137 @@ def c17_special(pid, prop, tier, seed, b):
     for d in set(r['troot'] for r in runs):
         shutil.rmtree(d, ignore_errors=True)
     return cases, impl_lines, failures, disagreements, dict()
+
+
+# ------------------------------------------------------------------ C19 the C++ port
+
+def c19_special(pid, prop, tier, seed, b):
+    rng = random.Random(seed * 1000003 + 19)
+    env = dict(GOENV, VERIF_REPO=REPO)
+    rc, out = infra.sh('%s/harness/cpp/build.sh' % V, env=env, timeout=1200)
+    if rc != 0 or not os.path.exists(V + '/bin/cppdriver'):
+        return [], [], [], [], dict(problems=[('cpp-build', 'the C++ port / driver does not build: ' + out[-1500:])])
+    root = infra.disk_root()
+    n = 1 if tier == 'quick' else 20
+    cases = []
+
+    def add(op, args, text, shape, cmpkeys, meta=None):
+        c = props.case(op, args, text, shape, meta or {})
+        c['cmpkeys'] = cmpkeys
+        cases.append(c)
+    for _ in range(1500 * n):
+        s, sh = gens.range_string(rng)
+        add('fs', [s], s, 'fs', 'fs')
+    for s in list(gens.token_sweep(1)) + (list(gens.token_sweep(2))[::7] if tier != 'quick' else []):
+        add('fs', [s], s, 'fs-sweep', 'fs')
+    for _ in range(600 * n):
+        s, sh = gens.range_string(rng, deco=False)
+        add('norm', [s], s, 'norm', 'norm')
+    for _ in range(1200 * n):
+        l = gens.runs_list(rng) if rng.random() < 0.7 else gens.distinct_ints(rng, rng.randint(1, 9))
+        srt, z = rng.random() < 0.4, rng.choice([0, 1, 2, 3, 4])
+        add('f2r', [','.join(map(str, l)), 1 if srt else 0, z], 'frames=%s sorted=%s zfill=%d' % (l, srt, z), 'f2r', 'f2r')
+    for _ in range(800 * n):
+        s, sh = gens.range_string(rng, deco=False)
+        w = rng.choice([2, 3, 4, 5, 8])
+        add('padfr', [s, w], '%r width=%d' % (s, w), 'padfr', 'padfr')
+    for st in (0, 1):
+        for w in range(1, 40):
+            add('pad', [st, w], 'style=%d width=%d' % (st, w), 'pad', 'all')
+        for tok in gens.PAD_TOKENS:
+            add('padsize', [st, tok], 'style=%d chars=%s' % (st, tok), 'padsize', 'all')
+    k = 0
+    while k < 1500 * n:
+        d, bn, r, frames, p, e, st = props.seq_tuple(rng)
+        if not props.unambiguous(d, bn, r, p, e) or (bn == '' and e == '' and r == ''):
+            continue
+        if r != '' and not frames:
+            continue
+        s = d + bn + r + p + e
+        probes = [rng.choice([0, 1, -1, 7, 12, 100, -100]) for _ in range(2)]
+        add('seq', [s, st] + [str(x) for x in probes], '%r style=%d' % (s, st), 'seq', 'seq')
+        k += 1
+    for i in range(120 * n):
+        ents, seqs = [], []
+        for j in range(rng.randint(1, 3)):
+            bn = rng.choice(['foo.', 'bar_', 'img.', 'shot_010_']) + ('' if j == 0 else 'v%s_' % 'abc'[j])
+            e = rng.choice(['.exr', '.jpg', '.tar.gz'])
+            w = rng.choice([1, 3, 4, 5])
+            vals = sorted(set(rng.randint(10 ** (w - 1) if w > 1 else 1, 10 ** w - 1) for _ in range(rng.randint(2, 6))))
+            if len(vals) < 2:
+                continue
+            hid = '.' if rng.random() < 0.2 else ''
+            for v in vals:
+                ents.append('F:' + hid + bn + str(v).rjust(w, '0') + e)
+            seqs.append((hid + bn, e, w))
+        for nm in rng.sample(['readme.txt', 'notes', 'Makefile', '.hiddenfile', 'a.b.c'], rng.randint(0, 3)):
+            ents.append('F:' + nm)
+        if rng.random() < 0.3:
+            ents.append('D:subdir')
+        ents = list(dict.fromkeys(ents))
+        opts = [o for o in (0, 1, rng.choice([2, 3])) if rng.random() < 0.5]
+        path = 'k%d/d' % i
+        add('disk', [','.join(map(str, opts)), path, 1] + ents, 'path=%r opts=%s entries=%r' % (path, opts, ents), 'disk', 'listing',
+            dict(path=path, ents=ents, opts=opts, readable=1))
+        if seqs:
+            bn, e, w = rng.choice(seqs)
+            stl = rng.choice([0, 1])
+            padtok = props.py_zfill(0, 0) and ('#' if (w == 4 and stl == 1) else ('#' * w if stl == 0 else '@' * w))
+            o2 = [o for o in (rng.choice([2, 3]),) if rng.random() < 0.3]
+            pat = 'k%df/d/' % i + bn + padtok + e
+            add('findseq', [','.join(map(str, o2)), stl, pat, 1] + ents, 'pattern=%r style=%d opts=%s entries=%r' % (pat, stl, o2, ents),
+                'findseq', 'listing', dict(pat=pat, st=stl, opts=o2, ents=ents, readable=1))
+    lines = [c['line'] for c in cases]
+    disk_idx = [i for i, c in enumerate(cases) if c['op'] in ('disk', 'findseq')]
+    other_idx = [i for i, c in enumerate(cases) if c['op'] not in ('disk', 'findseq')]
+    go_out = [None] * len(cases)
+    cpp_out = [None] * len(cases)
+    for idxs, need_root in ((other_idx, False), (disk_idx, True)):
+        sub = [lines[i] for i in idxs]
+        g = infra.run_driver(V + '/bin/godriver', sub, need_root=need_root)
+        c_ = infra.run_driver(V + '/bin/cppdriver', sub, need_root=need_root)
+        for i, a, b_ in zip(idxs, g, c_):
+            go_out[i], cpp_out[i] = a, b_
+    failures, impl_lines = [], []
+    from registry import split_order
+
+    def project(c, line_):
+        line_, _ = split_order(line_)
+        st, kv, bare = infra.parse_out(line_)
+        k = c['cmpkeys']
+        if k == 'listing':
+            return (st, tuple(sorted(bare)))
+        if st != 'OK':
+            return (st,)
+        if k == 'all':
+            return (st, tuple(sorted(kv.items())))
+        if k == 'fs':
+            vals = kv.get('value', '').split(',')
+            return (st, kv.get('isfr'), kv.get('len'), kv.get('start'), kv.get('end'), kv.get('frames'),
+                    ','.join(vals[2:-3]), kv.get('index'), kv.get('has'))
+        if k == 'norm':
+            return (st, kv['nstr'], kv['nframes'], kv['istr'], kv['iframes'],
+                    tuple(props.strip_zeros(unhx(x).decode('latin-1')) for x in kv['ipad'].split(',')))
+        if k == 'f2r':
+            return (st, kv['s'], kv['re'])
+        if k == 'padfr':
+            return (st, props.strip_zeros(unhx(kv['s']).decode('latin-1')), kv['out'])
+        if k == 'seq':
+            ps = kv['paths'].split(',')
+            return (st,) + tuple(kv[x] for x in ('dir', 'base', 'ext', 'pad', 'zfill', 'hasfs', 'frange', 'string', 'len', 'start', 'end')) + \
+                (tuple(ps[1:-1]), kv['frame'] if kv['hasfs'] == '1' else '')
+        return (st,)
+    for c, g, cc in zip(cases, go_out, cpp_out):
+        c['impl'] = g
+        impl_lines.append(g)
+        # only inputs in the shared domain: the Go side accepts, and the range denotes a frame
+        gst, gkv, _ = infra.parse_out(split_order(g)[0])
+        if c['op'] in ('fs', 'norm', 'padfr') and (gst != 'OK' or gkv.get('len') == '0' or gkv.get('frames') == '-' or gkv.get('in') in ('ERR', '-')):
+            c['nontrivial'] = False
+            continue
+        a, b_ = project(c, g), project(c, cc)
+        if a != b_:
+            diff = [i for i, (x, y) in enumerate(zip(a, b_)) if x != y]
+            failures.append((c, ['the C++ port answers differently (field %s): Go %s | C++ %s' % (diff[:2], str(a)[:300], str(b_)[:300])]))
+            c['model'] = cc
+    return cases, impl_lines, failures, [], dict()
